@@ -764,7 +764,9 @@ class Plucker(SMUserList):
         :return: reciprocal product
         :rtype: float
 
-        ``left * right`` is the scalar reciprocal product :math:`\hat{w}_L \dot m_R + \hat{w}_R \dot m_R`.
+        ``left * right`` is the scalar reciprocal product :math:`\hat{w}_L \cdot \hat{m}_R + \hat{w}_R \cdot \hat{m}_L`
+        of the two lines with their coordinates scaled to unit direction (:math:`\hat{m} = m / \|w\|`);
+        it is zero if and only if the lines are coplanar.
 
         Notes:
             
@@ -776,7 +778,7 @@ class Plucker(SMUserList):
         left = self
         if isinstance(right, Plucker):
             # reciprocal product
-            return np.dot(left.uw, right.v) + np.dot(right.uw, left.v)
+            return (np.dot(left.w, right.v) + np.dot(right.w, left.v)) / (np.linalg.norm(left.w) * np.linalg.norm(right.w))
         else:
             raise ValueError('bad arguments')
         
